@@ -40,7 +40,7 @@ func genStream(seed uint64, tier, variant string) any {
 		for ci, n := 0, 1+r.IntN(4); ci < n; ci++ {
 			uid := func(k int) string { return fmt.Sprintf("t%d.c%d.k%d", ti, ci, k) }
 			shape := func() string {
-				s := pick(r, "s", "b", "b", "i", "d", "n", "e", "S", "v")
+				s := pick(r, "s", "b", "b", "i", "d", "n", "e", "S", "v", "z")
 				if p.Opt.RESP2 && s == "S" {
 					s = "b"
 				}
@@ -210,6 +210,9 @@ func execStream(t *testing.T, plan any, out *Outcome) {
 					out.violate("C29", "stream-payload", "task %d call %d reply %d %q: wrote %d bytes, the reply's payload has %d bytes (first difference at %d)", task, rec.Index, i, truncArgv(spec.Cmds[i].Argv), len(so.payload), len(wantPayload), firstDiff(so.payload, wantPayload))
 				} else {
 					out.judged("stream-payload-exact")
+					if want.T == '$' && wantPayload == "" {
+						out.probe("empty-bulk-string-streamed")
+					}
 				}
 			case so.nilErr:
 				if want.T != '_' {
